@@ -146,7 +146,9 @@ class FakeWriter:
         self.closed = True
 
     def is_closing(self):
-        return self.closed
+        # asyncio: a transport torn down by an error (_fatal_error -> _force_close) is "closing" although nobody called
+        # close(); a clean EOF from the peer leaves it open (StreamReaderProtocol.eof_received keeps the transport)
+        return self.closed or getattr(self, "lost", None) is not None
 
     def connection_lost(self, exc):
         """the transport ended with an error: asyncio re-raises it from wait_closed()"""
